@@ -4,7 +4,7 @@ import os, re
 
 PROP = 'C16'
 PROPS_MODULES = ['LA.Props.C16']
-GEN = []
+GEN = ['MatchFlags']
 ASSUMPTIONS = []
 TRUSTED = []
 MANIFEST = {'text': 'TODO', 'note': 'TODO', 'technique': 'TODO'}
@@ -245,6 +245,263 @@ class Pm(Engine):
         return st
 
 
+MT, CT, NEWER, OLDER, EQUAL = 0x100, 0x200, 1, 2, 0x10
+NAMES = ['a', 'b', 'ab', 'dir', 'x.c', 'sub']
+
+
+def rand_path(rng):
+    n = rng.choice([1, 1, 2, 2, 3, 4])
+    parts = [rng.choice(NAMES) for _ in range(n)]
+    s = '/'.join(parts)
+    r = rng.random()
+    if r < 0.1:
+        s = './' + s
+    elif r < 0.15:
+        s = '/' + s
+    elif r < 0.2:
+        s += '/'
+    return s
+
+
+def pat_for(rng, path):
+    """A pattern related to a path: the path, a prefix directory, a component, or with wildcards."""
+    parts = [x for x in path.split('/') if x not in ('', '.')]
+    r = rng.random()
+    if not parts or r < 0.15:
+        return units(rand_pattern(rng, ALPHA, 8)) if rng.random() < 0.7 else ustr(rng.choice(NAMES))
+    if r < 0.35:
+        return ustr('/'.join(parts[:rng.randrange(1, len(parts) + 1)]))
+    if r < 0.5:
+        return ustr('/'.join(parts[:rng.randrange(1, len(parts) + 1)]) + '/')
+    if r < 0.65:
+        return ustr(rng.choice(parts))
+    if r < 0.75:
+        return ustr('*' + rng.choice(parts)[-1:])
+    if r < 0.85:
+        k = rng.randrange(len(parts)); q = list(parts); q[k] = q[k][:1] + '*'
+        return ustr('/'.join(q))
+    if r < 0.92:
+        return ustr('^' + parts[0])
+    return ustr(parts[-1] + '$')
+
+
+class Match(Engine):
+    name = 'match'
+
+    def entry_op(self, rng, path=None, ref=None, owners=None):
+        v = 'w' if rng.random() < 0.2 else 'n'
+        if path is None:
+            path = rand_path(rng)
+        pu = 'null' if path == 'NULL' else ustr(path)
+        if ref:
+            rs, rn = ref
+            ms = rs + rng.choice([-1, 0, 0, 0, 1]); mn = min(max(rn + rng.choice([-1, 0, 0, 1]), 0), 999999999)
+            cs = rs + rng.choice([-1, 0, 0, 0, 1]); cn = min(max(rn + rng.choice([-1, 0, 0, 1]), 0), 999999999)
+        else:
+            ms, mn, cs, cn = rng.choice([0, 5, 10**9, -3]), rng.choice([0, 1, 999999999, -1, 10**9]), rng.choice([0, 5, -3]), rng.choice([0, 7])
+        cset = 1 if rng.random() < 0.7 else 0
+        uid, gid = (rng.choice(owners[0] + [0, 7, -1]), rng.choice(owners[1] + [0, 7])) if owners else (rng.choice([0, 1, 1000]), rng.choice([0, 1, 100]))
+        un = rng.choice(['null', '-'] + [ustr(x) for x in (owners[2] if owners else []) + ['root', 'u1']])
+        gn = rng.choice(['null', '-'] + [ustr(x) for x in (owners[3] if owners else []) + ['wheel', 'g1']])
+        return f'entry {v} {pu} {ms} {mn} {cset} {cs} {cn} {uid} {gid} {un} {gn}'
+
+    def gen(self, rng, tier):
+        n = 500 if tier == 'quick' else 20000
+        for i in range(n):
+            ops = []
+            kind = rng.choice(['path', 'path', 'path', 'time', 'time', 'owner', 'all'])
+            paths = [rand_path(rng) for _ in range(rng.choice([1, 2, 4]))]
+            ref = owners = None
+            if kind in ('path', 'all'):
+                if rng.random() < 0.25:
+                    ops.append(f'recursion {rng.choice([0, 1])}')
+                for _ in range(rng.choice([0, 1, 2, 3, 5])):
+                    v = 'w' if rng.random() < 0.3 else 'n'
+                    ops.append(f'incl {v} {pat_for(rng, rng.choice(paths))}')
+                for _ in range(rng.choice([0, 0, 1, 2])):
+                    v = 'w' if rng.random() < 0.3 else 'n'
+                    ops.append(f'excl {v} {pat_for(rng, rng.choice(paths))}')
+                if rng.random() < 0.05:
+                    ops.append(f'incl n {rng.choice(["null", "-", ustr("/"), "c3,a9", "80,2f"])}')
+                if rng.random() < 0.05:
+                    ops.append(f'incl w {rng.choice(["e9,2f,61", "3042", "-", "null"])}')
+            if kind in ('time', 'all'):
+                ref = (rng.choice([0, 100, -5, 2**31]), rng.choice([0, 500, 999999999]))
+                for _ in range(rng.choice([1, 1, 2, 3])):
+                    fl = rng.choice([MT, CT, MT | CT]) | rng.choice([NEWER, OLDER, EQUAL, NEWER | EQUAL, OLDER | EQUAL, NEWER | OLDER, NEWER | OLDER | EQUAL])
+                    r = rng.random()
+                    if r < 0.06:
+                        fl = rng.choice([0, MT, NEWER, MT | 4, 0x400 | NEWER, MT | NEWER | 0x10000, MT | 0x20, 0x800 | MT | NEWER])
+                    ops.append(f'time {fl} {ref[0] + rng.choice([0, 0, 1, -1])} {ref[1] + rng.choice([0, 0, 1, -1, 10**9])}')
+                if rng.random() < 0.4:
+                    for _ in range(rng.choice([1, 2])):
+                        ops.append(self.entry_op(rng, rng.choice(paths + ['NULL'] if rng.random() < 0.1 else paths), ref))
+                        fl = rng.choice([MT, CT, MT | CT]) | rng.choice([NEWER, OLDER, EQUAL, NEWER | EQUAL, OLDER | EQUAL, NEWER | OLDER | EQUAL])
+                        if rng.random() < 0.05:
+                            fl = rng.choice([0, MT, EQUAL])
+                        ops.append(f'exent {fl}')
+            if kind in ('owner', 'all'):
+                owners = ([rng.choice([0, 5, 1000, -1, 2**40, 17, 18, 19, 3, 4]) for _ in range(rng.choice([0, 1, 3, 9, 20]))],
+                          [rng.choice([0, 5, 100]) for _ in range(rng.choice([0, 0, 1, 2]))],
+                          [rng.choice(['root', 'alice', 'bob']) for _ in range(rng.choice([0, 0, 1, 2]))],
+                          [rng.choice(['wheel', 'staff']) for _ in range(rng.choice([0, 0, 1]))])
+                for x in owners[0]:
+                    ops.append(f'uid {x}')
+                for x in owners[1]:
+                    ops.append(f'gid {x}')
+                for x in owners[2]:
+                    ops.append(f'uname {rng.choice("nw")} {ustr(x)}')
+                for x in owners[3]:
+                    ops.append(f'gname {rng.choice("nw")} {ustr(x)}')
+                if rng.random() < 0.05:
+                    ops.append('uname n -')
+            for _ in range(rng.choice([1, 2, 4, 8])):
+                path = rng.choice(paths) if rng.random() < 0.7 else rand_path(rng)
+                if rng.random() < 0.3:
+                    path = path + '/' + rng.choice(NAMES)      # something below a named directory
+                if rng.random() < 0.03:
+                    path = 'NULL'
+                ops.append(self.entry_op(rng, path, ref, owners))
+                q = {'path': 'path', 'time': 'time', 'owner': 'owner', 'all': 'all'}[kind]
+                if rng.random() < 0.15:
+                    q = rng.choice(['path', 'time', 'owner', 'all'])
+                ops.append('q ' + q)
+                if kind in ('path', 'all') and rng.random() < 0.5:
+                    ops.append('unmatched')
+                if kind in ('path', 'all') and rng.random() < 0.08:
+                    ops.append(f'incl n {pat_for(rng, rng.choice(paths))}')
+            if kind in ('path', 'all'):
+                ops.append('unmatched')
+                v = rng.choice('nw')
+                if any(o.startswith('incl n') and any(int(x, 16) >= 128 for x in o.split()[2].split(',') if x not in ('null', '-')) for o in ops):
+                    v = 'n'     # wide read-back of undecodable bytes is the locale's business
+                for _ in range(rng.choice([0, 2, 8])):
+                    ops.append(f'unext {v}')
+                    if rng.random() < 0.1:
+                        ops.append(self.entry_op(rng, rng.choice(paths)))
+                        ops.append('q path')
+            yield Case(f'{kind}{i}', ops)
+
+    # -- the property, evaluated on the implementation's own answers ------------------------------
+    def oracle(self, case, impl):
+        incl = excl_lit = 0
+        excl_literals = set()
+        filters = {}            # ('newer'|'older', 'm'|'c') -> (flag, sec, nsec)
+        have_exent = False
+        uids, gids, unames, gnames = set(), set(), [], []
+        ent = None
+        last_n = None
+        for op, o in zip(case.ops, impl):
+            w = op.split()
+            if o.startswith('!'):
+                return f'abort in `{op}`: {o}'
+            if w[0] == 'incl' and o == 'ok':
+                incl += 1; last_n = None
+            elif w[0] == 'excl' and o == 'ok':
+                u = [] if w[2] == '-' else [int(x, 16) for x in w[2].split(',')]
+                if u and all(chr(x).isalnum() for x in u if x < 128) and all(x < 128 for x in u):
+                    excl_literals.add(''.join(map(chr, u)))
+            elif w[0] == 'time' and o == 'ok':
+                fl, s, ns = int(w[1]), int(w[2]), int(w[3])
+                je = (fl & (EQUAL | NEWER | OLDER)) == EQUAL
+                for bit, k in ((MT, 'm'), (CT, 'c')):
+                    if fl & bit:
+                        if fl & NEWER or je:
+                            filters[('newer', k)] = (fl, s, ns)
+                        if fl & OLDER or je:
+                            filters[('older', k)] = (fl, s, ns)
+            elif w[0] == 'exent' and o == 'ok':
+                have_exent = True
+            elif w[0] == 'uid' and o == 'ok':
+                uids.add(int(w[1]))
+            elif w[0] == 'gid' and o == 'ok':
+                gids.add(int(w[1]))
+            elif w[0] == 'uname' and o == 'ok':
+                unames.append(w[2])
+            elif w[0] == 'gname' and o == 'ok':
+                gnames.append(w[2])
+            elif w[0] == 'entry':
+                ob = o.split()
+                if len(ob) != 8:
+                    return f'entry op answered {o}'
+                # times/ids as the entry object reports them
+                ent = w[:3] + ob[1:6] + ob[6:8] + w[10:12]
+            elif w[0] == 'unmatched':
+                k = int(o[2:])
+                if k < 0 or k > incl:
+                    return f'unmatched inclusion count {k} outside 0..{incl}'
+                if last_n is not None and k > last_n:
+                    return f'unmatched inclusion count grew from {last_n} to {k} without a new inclusion'
+                last_n = k
+            elif w[0] == 'q':
+                if o not in ('r=0', 'r=1'):
+                    return f'verdict {o} is not 0/1'
+                r = int(o[2:])
+                if w[1] in ('path', 'all') and ent and ent[2] not in ('null', '-'):
+                    path = ''.join(chr(int(x, 16)) for x in ent[2].split(','))
+                    comps = [c for c in path.split('/') if c]
+                    if r == 0 and any(c in excl_literals for c in comps):
+                        return f'exclusions must win: path {path!r} has a component that is an exclusion pattern, verdict {o}'
+                if w[1] == 'time' and ent and not have_exent:
+                    want = self.time_spec(filters, ent)
+                    if want != r:
+                        return f'time criteria are not the lexicographic (sec,nsec) order: filters {filters}, entry {ent[3:8]}: got {r}, expected {want}'
+                if w[1] == 'owner' and ent:
+                    want = self.owner_spec(uids, gids, unames, gnames, ent)
+                    if want != r:
+                        return f'owner criteria: uids {sorted(uids)} gids {sorted(gids)} unames {unames} gnames {gnames} entry {ent[8:]}: got {r}, expected {want}'
+        return None
+
+    @staticmethod
+    def time_spec(filters, ent):
+        m = (int(ent[3]), int(ent[4]))
+        c = (int(ent[6]), int(ent[7])) if ent[5] != '0' else m
+        for (kind, which), (fl, s, ns) in filters.items():
+            t = m if which == 'm' else c
+            ref = (s, ns)
+            if t == ref:
+                if not fl & EQUAL:
+                    return 1
+            elif kind == 'newer' and t < ref:
+                return 1
+            elif kind == 'older' and t > ref:
+                return 1
+        return 0
+
+    @staticmethod
+    def owner_spec(uids, gids, unames, gnames, ent):
+        if uids and int(ent[8]) not in uids:
+            return 1
+        if gids and int(ent[9]) not in gids:
+            return 1
+        if unames and (ent[10] in ('null', '-') or ent[10] not in unames):
+            return 1
+        if gnames and (ent[11] in ('null', '-') or ent[11] not in gnames):
+            return 1
+        return 0
+
+    def nontrivial(self, case, impl):
+        return any(o == 'r=1' for o in impl) and any(o == 'r=0' for o in impl)
+
+    def stats(self, cases, impl):
+        st = {'ops': {}, 'verdicts': {}, 'status': {}, 'unext': {}}
+        for c, im in zip(cases, impl):
+            q = None
+            for op, o in zip(c.ops, im):
+                k = op.split()[0]
+                st['ops'][k] = st['ops'].get(k, 0) + 1
+                if k == 'q':
+                    key = op.split()[1] + ':' + o
+                    st['verdicts'][key] = st['verdicts'].get(key, 0) + 1
+                elif k == 'unext':
+                    kk = o.split(' ')[0]
+                    st['unext'][kk] = st['unext'].get(kk, 0) + 1
+                elif o in ('ok', 'failed'):
+                    st['status'][k + ':' + o] = st['status'].get(k + ':' + o, 0) + 1
+        return st
+
+
+
 def all_strings(alpha, maxlen):
     out = [[]]
     layer = [[]]
@@ -254,4 +511,4 @@ def all_strings(alpha, maxlen):
     return out
 
 
-ENGINES = [Pm()]
+ENGINES = [Pm(), Match()]
